@@ -837,39 +837,30 @@ def callback_error_keeps_cause(ctx, rid):
 # R5.13  redo exports a boolean option only when it was given
 
 def flags_exported_only_when_set(ctx, rid):
-    ctx.rule(rid, "`redo` writes REDO_KEEP_GOING (and the other boolean option variables) only with the constant \"1\": it never writes an `off` value, which would switch off an option inherited from the enclosing `redo -k` for everything below")
+    ctx.rule(rid, "`redo` exports its boolean options (REDO_KEEP_GOING, ...) with the constant \"1\" only: no set_var in the option export writes a value chosen between two strings by a flag, which would overwrite an option inherited from the enclosing `redo -k` with `off`")
     prog = ctx.prog
     B = prog.one(r"@bin::run_redo")
     fam = [B] + [c for k, c in prog.bodies.items() if k.startswith(B.key + "::")]
-    names = {"REDO_KEEP_GOING", "REDO_SHUFFLE", "REDO_DEBUG_LOCKS", "REDO_DEBUG_PIDS"}
-    seen = set()
+    n = 0
+    n_one = 0
     for b in fam:
         ba = BA.of(b)
-        for i in ba.calls(r"std::env::set_var"):
+        for k_, i in common.ordinal_keys([("set_var", x) for x in ba.calls(r"std::env::set_var")]):
             t = b.blocks[i]["term"]
-            c0 = op_const(t["args"][0])
-            nm = (c0 or {}).get("str")
-            if nm is None:
-                # the name is not a literal here (a helper taking the name): every literal boolean-option name that can
-                # reach it is affected
-                origins = common.const_origins(b, t["args"][0]) if hasattr(common, "const_origins") else None
-                cand = {x for x in (origins or []) if isinstance(x, str)} & names
-                if not cand:
-                    continue
-                nms = cand
-            else:
-                if nm not in names:
-                    continue
-                nms = {nm}
-            v = op_const(t["args"][1])
-            vs = (v or {}).get("str")
-            ok = vs == "1"
-            for n_ in sorted(nms):
-                seen.add(n_)
-                ctx.ob(rid, "%s|%s|only-the-constant-1-is-written" % (B.key, n_), ok, where=ctx.where(b, i),
-                       detail="set_var(%s, \"1\")" % n_ if ok else "%s is written with a computed value: without the flag an inherited setting is overwritten with `off`" % n_)
-    ctx.floor(rid, "boolean option variables exported by redo", len(seen), 1)
-    ctx.ob(rid, "%s|REDO_KEEP_GOING-exported" % B.key, "REDO_KEEP_GOING" in seen, where=B.span, detail="--keep-going is exported to sub-redos")
+            if len(t["args"]) < 2:
+                continue
+            org = common.const_origins(b, t["args"][1])
+            consts = [c.get("str") for (kind, bb, c) in org if kind == "const" and isinstance(c, dict) and "str" in c]
+            others = [kind for (kind, bb, c) in org if kind != "const"]
+            if not consts:
+                continue            # a computed value (a count, an inherited default): not a boolean option
+            n += 1
+            if consts == ["1"] * len(consts) and not others:
+                n_one += 1
+            bad = [c for c in consts if c != "1"]
+            ctx.ob(rid, "%s|%s|constant-value-is-1" % (b.key, k_), not bad, where=ctx.where(b, i),
+                   detail="writes \"1\"" if not bad else "this export can write %r: given without the flag it overwrites an inherited setting with `off`" % bad[0])
+    ctx.floor(rid, "option exports that write the constant \"1\"", n_one, 1)
 
 
 # ------------------------------------------------------------------------------------------------
